@@ -79,17 +79,17 @@ Prog(cf, t, asg, o, bv, cv, v) ==
 Keep(pr) == WellFormed(pr) /\ Run(pr).ok
 \* compound assignments: all of them on the single-leaf tree ; quick tier: += on the shallow trees for odd configurations, -= on the
 \* deep trees for even configurations ; thorough tier: = += -= on every tree of every configuration
-Asgs(ci, t) == IF t = Lf(1) THEN {"=", "+=", "-=", "*=", "/="} ELSE IF Thorough THEN {"=", "+=", "-="}
+Asgs(ci, t) == IF t = Lf(1) THEN {"=", "+=", "-=", "*=", "/=", "/=i"} ELSE IF Thorough THEN {"=", "+=", "-="}
                ELSE IF t \in T1 THEN (IF ci % 2 = 1 THEN {"=", "+="} ELSE {"="}) ELSE (IF ci % 2 = 0 THEN {"=", "-="} ELSE {"="})
 Sel(ci, t, oi) == Thorough \/ oi <= 4 \/ ((ci + oi) % 2 = 0)
 ExprSel == {Prog(Cfgs[x[1]], x[2], x[3], Offs[x[4]], 1 + ((x[1] + x[4]) % 2), 1 + (x[4] % 2), x[4] % 2) :
-              x \in {y \in (1..Len(Cfgs)) \X Trees \X {"=", "+=", "-=", "*=", "/="} \X (1..Len(Offs)) :
+              x \in {y \in (1..Len(Cfgs)) \X Trees \X {"=", "+=", "-=", "*=", "/=", "/=i"} \X (1..Len(Offs)) :
                        y[3] \in Asgs(y[1], y[2]) /\ Sel(y[1], y[2], y[4]) /\ (y[3] = "=" \/ y[4] <= 4)}}
 ExprKept == {pr \in ExprSel : Keep(pr)}
 \* plain arrays (fsarray, runtime_array) and the run-time matrix: assignment and compound assignments only
 Plain == {[kind |-> "expr", fam |-> f, tree |-> Lf(1), asg |-> asg, buf |-> Bufs[bv], c |-> Consts[1],
            ops |-> <<Opd("own", 2, 1, <<>>), Opd("own", 14, 1, <<>>), Opd("own", 26, 1, <<>>)>>] :
-            f \in {"fsarray3", "rtarray3", "rtmatrix22"}, asg \in {"=", "+=", "-=", "*=", "/="}, bv \in 1..2}
+            f \in {"fsarray3", "rtarray3", "rtmatrix22"}, asg \in {"=", "+=", "-=", "*=", "/=", "/=i"}, bv \in 1..2}
 \* ---------------- products ----------------
 Prod == {[kind |-> "prod", what |-> "mv", m |-> Opd(km, 2, 1, <<>>), w |-> Opd(kw, 14, 1, <<>>), dk |-> dk, doff |-> 30, buf |-> Bufs[bv]] :
            km \in {"own", "map", "mv4"}, kw \in {"own", "map", "sv2"}, dk \in {"own", "map"}, bv \in 1..2}
